@@ -577,10 +577,17 @@ def r12_eol_agree(c, facts, rule='C16.R12'):
     for q in ('oal_client::lsp::unicode::position_to_utf8', 'oal_client::lsp::unicode::utf8_to_position'):
         fn = c.anchor(R, q)
         vals = set()
-        for g in [fn] + list(facts.closures_of(fn)):
+        # a helper the scan was moved into (`advance_position(line, character, c)`, `is_line_terminator(c)`) is looked through
+        for g in [facts.normalised(fn)] + list(facts.closures_of(fn)):
             if not g.mir:
                 continue
             for b, blk in g.blocks():
+                # `match c { '\n' => .., _ => .. }` is a switch on the character, not a comparison
+                tm = blk['term']
+                if tm['t'] == 'switch' and 'l' in tm.get('discr', {}) and not tm['discr'].get('proj') and g.mir['locals'][tm['discr']['l']]['ty'] == 'char':
+                    for v, _ in tm.get('targets', []):
+                        if str(v) in ('10', '13', '133', '8232', '8233'):
+                            vals.add(int(v))
                 for st in blk['stmts']:
                     if st['s'] == 'assign' and st['rv']['r'] == 'binop' and st['rv'].get('op') in ('Eq', 'Ne'):
                         for o in (st['rv'].get('a'), st['rv'].get('b')):
